@@ -636,6 +636,10 @@ func do_YIELD_FROM(vm *Vm, arg int32) error {
 		if !py.IsException(py.StopIteration, err) {
 			return err
 		}
+		// The sub iterator is finished: replace it on the stack with
+		// the value of the yield from expression, which is the
+		// value carried by the StopIteration (None if none)
+		vm.SET_TOP(py.StopIterationValue(err))
 		return nil
 	}
 	// x remains on stack, retval is value to be yielded
